@@ -42,6 +42,7 @@ PROPS["C18"] = dict(
         dict(pkg=FH, run="^VerifC18_Counter$", tiers=["quick", "thorough"], replay="native", reach=["counted", "uncounted", "refused-then-again"]),
         dict(pkg=FH, run="^VerifC18_Cascade_Q1$", tiers=["quick", "thorough"], replay="native", reach=["allow", "ban", "kill"]),
         dict(pkg=FH, run="^VerifC18_Cascade_Q2$", tiers=["quick", "thorough"], replay="native", reach=["allow", "ban", "kill"]),
+        dict(pkg=FH, run="^VerifC18_Cascade_Q3$", tiers=["quick", "thorough"], replay="native", reach=["kill"]),
         dict(pkg=FH, run="^VerifC18_InSet_Thorough$", tiers=["thorough"], replay="native", timeout=3000, reach=["admitted", "refused"]),
         dict(pkg=FH, run="^VerifC18_Cascade_T1$", tiers=["thorough"], replay="native", timeout=1800),
         dict(pkg=FH, run="^VerifC18_Cascade_T2$", tiers=["thorough"], replay="native", timeout=3000),
@@ -363,6 +364,8 @@ PROPS["C16"] = dict(
     assumptions=["init is pid 1 of its pid namespace: its exit kills everything inside"],
     harnesses=[
         dict(pkg=CT, run="^VerifC16_ControllerDies$", replay="model", preempt=1, timeout=1500, reach=["controller-killed", "killed-while-idle", "program-outlives-serve"]),
+        # the launcher is SIGKILLed inside the sync window: a 0-byte read is a refusal, the child neither execs nor lingers
+        dict(pkg=FE, run="^VerifC16_LauncherDiesDuringSync$", replay="model", preempt=1, timeout=900, reach=["launcher-killed-in-sync-window"]),
         dict(pkg=CT, run="^VerifC16_InitAttrs$", replay="model", preempt=0, reach=["wants-pidns", "default-flags"]),
         dict(pkg=PT, run="^VerifC03_MultiProc$", replay="model", timeout=900),
     ],
